@@ -43,6 +43,12 @@ SetOp == \E id \in Pick({""} \cup DOMAIN st \cup {"nosuch"}), ms \in Pick(MSV \c
            \* the API carries one matcher set, an explicit start, and ids in UUID form
            /\ (via = "api" => (Len(MSets[ms]) = 1 /\ s # Unset /\ id \notin {"r1", "r2"}))
            /\ SetV(id, ms, s, e, c, via)
+\* an edit that keeps every matcher's name and pattern and changes only an operator
+Twin(ms) == CASE ms = "M2" -> "M7" [] ms = "M7" -> "M2" [] ms = "M3" -> "M8" [] ms = "M8" -> "M3" [] OTHER -> ms
+TwinOp == \E id \in Pick({x \in DOMAIN st : Twin(st[x].ms) # st[x].ms /\ Twin(st[x].ms) \in MSV /\ st[x].upd # now}),
+             e \in Pick(Ends(now)), via \in Pick(Vias) :
+            /\ (via = "api" => (Len(MSets[Twin(st[id].ms)]) = 1 /\ id \notin {"r1", "r2"}))
+            /\ SetV(id, Twin(st[id].ms), st[id].start, e, "c1", via)
 ExpireOp == \E id \in Pick(DOMAIN st \cup {"nosuch"}) :
            (IF id \in DOMAIN st THEN st[id].upd # now ELSE TRUE) /\ Expire(id)
 MergeOp == \E B \in Pick(Batches), big \in Pick(BOOLEAN) : Merge(B, big)
@@ -50,6 +56,7 @@ MutesOp == \E ls \in Pick(LS) : Mutes(ls)
 AlertGCOp == \E ls \in Pick(LS) : AlertGC({ls})
 
 Next == \/ ("set" \in Ops /\ SetOp)
+        \/ ("set" \in Ops /\ TwinOp)
         \/ ("expire" \in Ops /\ ExpireOp)
         \/ ("merge" \in Ops /\ MergeOp)
         \/ ("gc" \in Ops /\ GC)
